@@ -101,10 +101,12 @@ def generate_high_level_commands_for_sched_op(sched_op, schedule):
     strides = [1, kernel_stride.y, kernel_stride.x, 1]
     skirt = parent_op.attrs.get("skirt", None)
     upscaling = 1
+    # an operator that reads through a fused slice upscales its read window, not the whole tensor
+    ifm_read_shape = parent_op.read_shapes[0] if parent_op.read_shapes[0] is not None else ifm.shape
     if sched_op.op_type == Op.Conv2DBackpropInputSwitchedBias:
-        upscaling = ofm_shape.height // ifm.shape.height
+        upscaling = ofm_shape.height // ifm_read_shape.height
     elif is_nearest(sched_op.resampling_mode):
-        upscaling = round_up_divide(ofm_shape.height, ifm.shape.height)
+        upscaling = round_up_divide(ofm_shape.height, ifm_read_shape.height)
 
     # Get kernel height and height dilation
     k_height = 1
